@@ -17,7 +17,8 @@ RULE = ('random RREL expressions (own AST: navigation, ~, fixed-name ~, ., .., .
         'in the first alternative with non-empty R (precedence), with +p: the path ends in the target and its names cover the '
         'name parts. distinct = (expression text, model, query); non-trivial = the reference set is non-empty')
 REQUIRED = {'queries': 5000, 'resolving_queries': 300, 'proxy_queries': 300, 'expressions': 300, 'star_expressions': 50,
-            'multi_alternative_resolved': 10, 'grammar_level_loads': 20}
+            'multi_alternative_resolved': 10, 'grammar_level_loads': 20,
+            'staged_loads': 300, 'staged_member_references_resolved_a_round_later': 300, 'staged_uses_checked': 300}
 
 MENU = ['^packages*.classes', 'packages*.classes', '^packages*.classes.methods', 'packages*.classes.(~sup)*.methods',
         '^classes,^packages*.classes', '.methods,..attrs', 'parent(Class).(~sup)*.attrs', '^(packages,classes)*',
@@ -280,15 +281,130 @@ def grammar_level(ctx, i, rep=None):
         ctx.violation(key, 'reference %r via %s RREL %r (target %s): %s' % ('.'.join(names), mode, et, clsname, why), wit, rep)
 
 
+STAGED_GRAMMAR = r"""
+Model: boxes+=Box defs+=Def uses+=Use;
+Box: 'box' name=ID '{' 'refs' members+=[Def|FQN|defs,defs.alias][','] ';' ('local' locals+=Def)* '}';
+Def: 'def' name=ID ('alias' alias=[Def|ID|defs])?;
+Use: 'use' name=ID target=[Def|FQN|%s];
+FQN: ID('.'ID)*;
+"""
+
+
+def staged(ctx, i, rep=None):
+    """RREL navigation through reference attributes that are themselves resolved in different rounds: the members of a
+    box are references; 'dY.dZ' entries go through dY.alias, which is written later and therefore resolved a round
+    later than plain 'dX' entries of the same list. Uses are looked up through boxes.members (, boxes.locals)."""
+    from textx import metamodel_from_str, TextXError
+    rep = rep or {'phase': 'staged', 'i': i}
+    r = ctx.rng('staged', i)
+    n = r.randint(3, 7)
+    defs = ['d%d' % k for k in range(n)]
+    alias = {}
+    for d in defs:
+        if r.random() < 0.5:
+            alias[d] = r.choice([x for x in defs if x != d])
+    boxes = []
+    for b in range(r.randint(1, 3)):
+        members = []          # (text, resulting def name)
+        for _ in range(r.randint(1, 4)):
+            if alias and r.random() < 0.5:
+                y = r.choice(sorted(alias))
+                members.append(('%s.%s' % (y, alias[y]), alias[y]))
+            else:
+                x = r.choice(defs)
+                members.append((x, x))
+        locals_ = [r.choice(defs + ['loc%d' % b]) for _ in range(r.randint(0, 2))]
+        boxes.append(('b%d' % b, members, sorted(set(locals_))))
+    flags = r.choice(['', '+p:'])
+    form = r.choice(['members,locals', 'members', 'fixed'])
+    rrel = {'members,locals': 'boxes.members,boxes.locals', 'members': 'boxes.members', 'fixed': "'%s'~boxes.members" % boxes[0][0]}[form]
+    uses = []
+    for k in range(r.randint(2, 6)):
+        b = boxes[0] if form == 'fixed' else r.choice(boxes)
+        cand = [m[1] for m in b[1]] + b[2] + [r.choice(defs)]
+        nm = r.choice(cand)
+        if form == 'fixed':
+            text = nm
+        else:
+            text = '%s.%s' % (b[0], nm)
+        in_members = nm in [m[1] for m in b[1]]
+        if in_members:
+            exp = ('top', nm)
+        elif form == 'members,locals' and nm in b[2]:
+            exp = ('local', b[0], nm)
+        else:
+            exp = None
+        uses.append(('u%d' % k, text, exp))
+    # keep at most one failing use, the last one
+    good = [u for u in uses if u[2] is not None]
+    bad = [u for u in uses if u[2] is None]
+    uses = good + bad[:1 if r.random() < 0.3 else 0]
+    if not uses:
+        return
+    text = ''
+    for name, members, locals_ in boxes:
+        text += 'box %s { refs %s ; %s }\n' % (name, ' , '.join(m[0] for m in members), ' '.join('local def %s' % l for l in locals_))
+    for d in defs:
+        text += 'def %s%s\n' % (d, (' alias ' + alias[d]) if d in alias else '')
+    for un, ut, _ in uses:
+        text += 'use %s %s\n' % (un, ut)
+    wit = {'grammar_rrel': flags + rrel, 'model': text}
+    staged_members = sum(1 for _, ms, _l in boxes for m in ms if '.' in m[0])
+    ctx.count('staged_loads')
+    ctx.count('staged_member_references_resolved_a_round_later', staged_members)
+    ctx.case(('staged', flags, form, n, tuple(len(b[1]) for b in boxes)), staged_members > 0, wit if ctx.evaluations % 4000 == 5 else None)
+    mm = metamodel_from_str(STAGED_GRAMMAR % (flags + rrel))
+    expect_fail = uses[-1][2] is None
+    try:
+        m = mm.model_from_str(text)
+    except TextXError as e:
+        if not expect_fail or ('"%s"' % uses[-1][1]) not in str(e):
+            ctx.violation(None, 'staged references: load failed although every use is reachable through %s: %s' % (rrel, str(e)[:140]), wit, rep)
+        return
+    if expect_fail:
+        ctx.violation(None, 'staged references: use %s %s resolved although %s reaches nothing of that name' % (uses[-1][0], uses[-1][1], rrel), wit, rep)
+        return
+    top = {d.name: d for d in m.defs}
+    bx = {b.name: b for b in m.boxes}
+    for (bn, members, _l), b in zip(boxes, m.boxes):
+        if [x.name for x in b.members] != [mm_[1] for mm_ in members] or any(x is not top[x.name] for x in b.members):
+            ctx.violation(None, 'staged references: members of %s are %r, written %r' % (bn, [x.name for x in b.members], [q[0] for q in members]), wit, rep)
+            return
+    for (un, ut, exp), u in zip(uses, m.uses):
+        ctx.count('staged_uses_checked')
+        tgt = getattr(u.target, '_tx_obj', u.target)
+        if exp[0] == 'top':
+            want = top[exp[1]]
+            bname = ut.split('.')[0] if '.' in ut else boxes[0][0]
+        else:
+            want = [l for l in bx[exp[1]].locals if l.name == exp[2]][0]
+            bname = exp[1]
+        if tgt is not want:
+            ctx.violation(None, 'staged references: use %s %r via %s resolved to %s %s, expected %s' % (
+                un, ut, flags + rrel, 'the local def' if tgt in bx[bname].locals else 'the top-level def', getattr(tgt, 'name', None),
+                'the top-level def %s reachable through %s.members (first alternative)' % (exp[1], bname) if exp[0] == 'top'
+                else 'the local def %s of %s' % (exp[2], exp[1])), wit, rep)
+            return
+        if flags:
+            path = getattr(u.target, '_tx_path', None)
+            if not path or path[-1] is not want or path[0] is not bx[bname]:
+                ctx.violation(None, 'staged references: proxy path of use %s is %r' % (un, [getattr(p_, 'name', '?') for p_ in (path or [])]), wit, rep)
+                return
+
+
 def run(ctx):
     for i in ctx.indices(400 if ctx.tier == 'quick' else 20000, 'random'):
         one(ctx, i)
         with ctx.time_limit(20):
             grammar_level(ctx, i)
+        for k in range(4):
+            staged(ctx, i * 4 + k)
 
 
 def replay(ctx, rep):
-    if rep.get('phase') == 'grammar':
+    if rep.get('phase') == 'staged':
+        staged(ctx, rep['i'], rep)
+    elif rep.get('phase') == 'grammar':
         grammar_level(ctx, rep['i'], rep)
     else:
         one(ctx, rep['i'], rep)
